@@ -589,6 +589,10 @@ class TypeReader:
             self.i += 1
             return self.variant("Type", "Slice", [self.mk("TypeSlice", {"elem": BoxV(elem)})])
         segs = []
+        leading = NONE()
+        if self.at(":") and self.i + 1 < len(self.cs) and isinstance(self.cs[self.i + 1], int) and self.cs[self.i + 1] == ord(":"):
+            self.i += 2          # `::std::rc::Rc<..>`
+            leading = SOME(TOK)
         while True:
             name = []
             first = True
@@ -624,7 +628,7 @@ class TypeReader:
                 self.i += 2
                 continue
             break
-        p = self.mk("Path", {"leading_colon": NONE(), "segments": RVec(segs)})
+        p = self.mk("Path", {"leading_colon": leading, "segments": RVec(segs)})
         return self.variant("Type", "Path", [self.mk("TypePath", {"qself": NONE(), "path": p})])
 
 
